@@ -13,8 +13,8 @@ icpt <id|lower|upper>              → ok                (resource.WithIDInterce
 keys <hex,hex,…|->                 → ok <n>            (ids in insertion order; the model sorts)
 sop add <hex|-> <hex|->            → ok <hex> | exists | aborted     (id or "-" = empty: generate; candidate id)
 sop ensure <hex|->                 → ok <hex> | rejected
-sop updm <hex|-> <0|1> <n|k|x>     → ok <hex> | notfound | rejected   (Update*(message): create-if-absent; update mask none / with key / without key)
-sop updi <hex|-> <hex|-> <0|1> <n|k|x>  → the same for UpdatePublication(id, message carrying that Id)
+sop updm <hex|-> <0|1> <n|k|x|e>   → ok <hex> | notfound | rejected   (Update*(message): create-if-absent; update mask none / with key / without key / non-nil without paths)
+sop updi <hex|-> <hex|-> <0|1> <n|k|x|e> → the same for UpdatePublication(id, message carrying that Id)
 sop delete <hex|-> <0|1>           → ok <hex> | notfound               (1: allow-missing)
 sop initial <hex|->                → ok <hex> | exists | rejected      (a WithInitial… record)
 listing                            → <hex,…|->        (Collection.List: items by storage id, shown by key field)
@@ -107,7 +107,8 @@ def parseIcpt? (s : String) : Option (String → String) :=
   if s = "id" then some id else if s = "lower" then some asciiLower else if s = "upper" then some asciiUpper else none
 
 def parseMask? (s : String) : Option Mask :=
-  if s = "n" then some .none else if s = "k" then some .withKey else if s = "x" then some .withoutKey else none
+  if s = "n" then some .none else if s = "k" then some .withKey else if s = "x" then some .withoutKey
+  else if s = "e" then some .empty else none
 
 def stepSt (st : St) (toks : List String) : Option (St × String) :=
   match toks with
